@@ -37,6 +37,7 @@ type genOpts struct {
 	tags       bool
 	bad        bool // allow unsupported kinds / structs without atlas entries
 	embedded   bool // embedded zoo structs (by value / by pointer) in generated structs
+	nativeTop  bool // the next untyped slot holds a native value, not a typed (tagged) one
 }
 
 // genType builds a random type; struct types get atlas entries (unless c is told otherwise).
@@ -114,7 +115,7 @@ func (g *G) genType(c *objCase, o genOpts, depth int) *TD {
 		return g.genStruct(c, o, depth)
 	case pick == 18:
 		if o.transforms {
-			kinds := []int{10, 11, 13, 14, 17, 17}
+			kinds := []int{10, 11, 13, 14, 17, 17, 22}
 			if !o.jsonSafe {
 				kinds = append(kinds, 12, 19)
 			}
@@ -141,8 +142,8 @@ func (c *objCase) zooTransform(id int, o genOpts) *TD {
 	if c.hasEntry(t) {
 		return t
 	}
-	kindOf := map[int]int{10: 1, 11: 2, 12: 3, 13: 4, 14: 5, 16: 6, 17: 7, 19: 8}
-	wireOf := map[int]string{10: "s", 11: "s", 12: "x", 13: "(sl i64)", 14: "(st 15)", 16: "s", 17: "(st 18)", 19: "x"}
+	kindOf := map[int]int{10: 1, 11: 2, 12: 3, 13: 4, 14: 5, 16: 6, 17: 7, 19: 8, 22: 9}
+	wireOf := map[int]string{10: "s", 11: "s", 12: "x", 13: "(sl i64)", 14: "(st 15)", 16: "s", 17: "(st 18)", 19: "x", 22: "a"}
 	ad := &AD{t: t, kind: "tr", trk: kindOf[id], wire: c.env.mustParseType(wireOf[id])}
 	c.atl.entries = append(c.atl.entries, ad)
 	if id == 17 { // wire struct with omitempty fields: omitted fields must not leak between sibling values
@@ -426,7 +427,12 @@ func (g *G) genValue(c *objCase, t *TD, o genOpts, depth int) reflect.Value {
 		}
 		// native untyped contents: what an untyped unmarshal produces, plus (sometimes) typed things
 		var dt *TD
-		switch g.intn(8) {
+		pickAny := g.intn(8)
+		if o.nativeTop { // the serial form of a tagged transform: an item carries one tag only
+			pickAny = g.intn(7)
+			o.nativeTop = false
+		}
+		switch pickAny {
 		case 0:
 			dt = &TD{k: "s", rt: primKinds["s"]}
 		case 1:
@@ -481,6 +487,12 @@ func (g *G) genValue(c *objCase, t *TD, o genOpts, depth int) reflect.Value {
 		if tt.n == 17 {
 			v.Field(0).SetString([]string{"", "", "tip", "usd"}[g.intn(4)])
 			v.Field(1).SetInt([]int64{0, 0, 7, -3}[g.intn(4)])
+			return v
+		}
+		if tt.n == 22 { // TrAny: its untyped content is the serial form itself
+			oo := o
+			oo.nativeTop = true
+			v.Field(0).Set(g.genValue(c, tt.field[0], oo, depth+1))
 			return v
 		}
 		if tt.n == 11 || tt.n == 16 { // transform sources: first component must not contain the separator
